@@ -270,7 +270,7 @@ func CheckC16(c *Ctx) (*Outcome, error) {
 	// (3) header oracle under explicit constraint settings, incl. non-complementary pairs
 	mk3 := func(i int) ([]*History, error) {
 		rng := c.Rng("c16-header", i)
-		spec := DrawLayout(rng, 1+rng.IntN(3), LayoutOpts{UserPkgs: true})
+		spec := DrawLayout(rng, 1+rng.IntN(3), LayoutOpts{UserPkgs: true, Symlinks: true})
 		w := spec.World("c16hdr")
 		g := &GenSpec{Plan: planIdentity(), Spec: spec, Expect: "ok"}
 		switch rng.IntN(10) {
